@@ -30,7 +30,7 @@ class GCase:
 
     def meta(self):
         return {"suite": "glue", "kind": self.kind, "entry": self.name, "variant": self.variant, "length": self.n,
-                "steps": len(self.xs), "extra": self.extra, "line": self.line()[:6000]}
+                "steps": len(self.xs), "extra": self.extra, "line": self.line()[:400000]}
 
     def oracle(self, io):
         if not io or io[0] != 0:
